@@ -5,8 +5,8 @@ import C31 as base
 
 ID = "C32"
 GEN = ["Colors"]
-THEOREMS = ["C32_grayscale", "C32_lighten_darken", "C32_refuted_lighten_clamp", "C32_saturate_range", "C32_alpha_range",
-            "C32_identities", "C32_named_laws_partial", "C32_named_undo_partial", "C32_refuted_scale_identity", "C32_refuted_hsl_undo"]
+THEOREMS = ["C32_grayscale", "C32_lighten_darken", "C32_lighten_range", "C32_saturate_range", "C32_alpha_range",
+            "C32_identities", "C32_named_laws_partial", "C32_named_undo_partial", "C32_scale_identity_yellow", "C32_refuted_hsl_undo"]
 COQ_HEADER = ("From Coq Require Import String List NArith ZArith Bool.\n"
               "From RV Require Import Run.C31 Run.C32.\nImport ListNotations.\nLocal Open Scope string_scope.")
 RUN_EXPR = "Run.C32.run"
@@ -94,14 +94,13 @@ def coq_term(c, io):
             f"{reps} {eqs})")
 
 
-K5, K6, K7, K8 = ("known_C32_K5_hsl_exact_compare", "known_C32_K6_red_eq_green", "known_C32_K7_lightness_unclamped",
-                  "known_C32_K8_out_of_range_source")
+K5, K8 = ("known_C32_K5_hsl_exact_compare", "known_C32_K8_out_of_range_source")
 EQ_NAMES = ["mix-same", "invert-twice", "complement-twice", "adjust-hue-360", "adjust-identity", "scale-identity",
             "change-identity", "lighten-darken-undo", "saturate-desaturate-undo", "opacify-transparentize-undo"]
 
 
 def judge(c, io, r):
-    corr, ll, ld, ls, lds, lo, lt, lg, ul, us, ua, k5, k6, k7, k8 = r
+    corr, ll, ld, ls, lds, lo, lt, lg, ul, us, ua, k5, k8 = r
     if any(x[0] in ("panic", "crash") for x in io):
         corr = 0
     eqs = [base.eq_answer(x) for x in io[11:21]]
@@ -110,13 +109,13 @@ def judge(c, io, r):
             if flag:
                 return name
         return None
-    cl = [("lighten-moves-lightness", ll == 1, cls((k6, K6), (k7, K7), (k8, K8))),
-          ("darken-moves-lightness", ld == 1, cls((k6, K6), (k7, K7), (k8, K8))),
-          ("saturate-moves-saturation", ls == 1, cls((k6, K6), (k8, K8))),
-          ("desaturate-moves-saturation", lds == 1, cls((k6, K6), (k8, K8))),
+    cl = [("lighten-moves-lightness", ll == 1, cls((k8, K8))),
+          ("darken-moves-lightness", ld == 1, cls((k8, K8))),
+          ("saturate-moves-saturation", ls == 1, cls((k8, K8))),
+          ("desaturate-moves-saturation", lds == 1, cls((k8, K8))),
           ("opacify-moves-alpha", lo == 1, None),
           ("transparentize-moves-alpha", lt == 1, None),
-          ("grayscale", lg == 1, cls((k6, K6), (k8, K8)))]
+          ("grayscale", lg == 1, cls((k8, K8)))]
     for i, nm in enumerate(EQ_NAMES):
         ok = eqs[i] == 1
         if nm == "lighten-darken-undo" and not ul:
@@ -125,9 +124,9 @@ def judge(c, io, r):
             ok = True
         if nm == "opacify-transparentize-undo" and not ua:
             ok = True
-        cl.append((nm, ok, cls((k6, K6), (k5, K5), (k8, K8))))
+        cl.append((nm, ok, cls((k5, K5), (k8, K8))))
     return {"corr": None if corr == 2 else (corr == 1), "clauses": cl, "nontrivial": c["amt"] != 0,
-            "tags": [c["k"]] + [n for f, n in ((k5, "K5"), (k6, "K6"), (k7, "K7"), (k8, "K8")) if f],
+            "tags": [c["k"]] + [n for f, n in ((k5, "K5"), (k8, "K8")) if f],
             "show": f"{expr_of(c)} amount {base.ntext(c['amt'])}% alpha {base.ntext(c['aamt'])} weight {base.ntext(c['w'])}%",
             "detail": expr_of(c)}
 
@@ -137,5 +136,5 @@ LEVEL_TEXT = ("proof: laws that are exact in binary64 for every colour (grayscal
               "pairs through `==` by finite sweep over the named colours; model tied to the code by bit-exact correspondence of eleven derived "
               "colours and ten `==` answers per case")
 LEVEL_NOTE = ("trusted: Coq kernel+vm_compute, Flocq binary64, harness command `color`; cancelling-pair laws are partial (swept); the statement "
-              "is false on the pinned tree in four recorded classes (unclamped lightness, exact hsl comparison, red = green > blue, out-of-range sources)")
+              "is false on the pinned tree in two recorded classes (exact hsl comparison, out-of-range sources); F33 and F38 are fixed upstream")
 TECHNIQUE = "Coq proof (laws exact in binary64 for all colours; finite sweeps for cancelling pairs) + bit-exact differential correspondence"
